@@ -8,6 +8,8 @@ object is a record of its four attributes, the deque a list (`appendleft` = cons
 recursive function over fuel. `SrcTie.absT` reads a model table (`Impl.Table`, whose strings carry an ownership tag) as
 that Python object. The theorems say that the translated methods, run on `absT t`, return `absT` of what the model's
 operations return — for **every** table state `t`, not only the reachable ones — or raise what the model says they raise.
+A method's exception carries the object as it was when raised (`Py.RS`); `get_by_index` is stated with that state
+(unchanged), the mutating methods through `dropS` (their only exceptions are the escapes the model marks unreachable).
 
 Not imported by the property modules (DESIGN.md §3.2a): a lost source tie is reported, never an alarm. -/
 namespace Props.SrcTable
@@ -16,23 +18,24 @@ open SrcTie
 /-- `get_by_index`: static entries, dynamic entries, `InvalidTableIndex` for 0 and past the end, and the `ValueError` of
 `"%d" % index` for an index too large to print — as `Impl.Table.getByIndex` has them -/
 theorem get_by_index_is_model (t : Impl.Table) (index : Nat) (fuel : Nat) :
-    Src.HeaderTable.get_by_index fuel (absT t) (index : Int) = outToR (mapOut (fun e => (absT t, proj e)) (t.getByIndex index)) :=
+    Src.HeaderTable.get_by_index fuel (absT t) (index : Int) =
+      Py.liftR (absT t) (outToR (mapOut (fun e => (absT t, proj e)) (t.getByIndex index))) :=
   get_by_index_tie t index fuel
 
 /-- `add`: too large empties the table, otherwise insert at the front and evict from the old end while the cached
 size exceeds the maximum — as `Impl.Table.add`, with enough fuel for the eviction loop -/
 theorem add_is_model (t : Impl.Table) (name value : Impl.PyBuf) :
-    ∃ f0, ∀ fuel, fuel ≥ f0 → Src.HeaderTable.add fuel (absT t) name.bytes value.bytes = tableRes (t.add name value) :=
+    ∃ f0, ∀ fuel, fuel ≥ f0 → dropS (Src.HeaderTable.add fuel (absT t) name.bytes value.bytes) = tableRes (t.add name value) :=
   ⟨t.entries.length + 2, fun fuel hf => add_tie t name value fuel (by omega)⟩
 
 /-- `_shrink` = `Impl.Table.shrink` (including the `IndexError` of popping an empty deque when the cached size is wrong) -/
 theorem shrink_is_model (t : Impl.Table) :
-    ∃ f0, ∀ fuel, fuel ≥ f0 → Src.HeaderTable.shrink fuel (absT t) = tableRes t.shrink :=
+    ∃ f0, ∀ fuel, fuel ≥ f0 → dropS (Src.HeaderTable.shrink fuel (absT t)) = tableRes t.shrink :=
   ⟨t.entries.length + 1, fun fuel hf => shrink_tie t fuel (by omega)⟩
 
 /-- the `maxsize` setter for a non-negative size = `Impl.Table.setMaxsize`: `resized` recomputed, 0 clears, lowering evicts -/
 theorem maxsize_setter_is_model (t : Impl.Table) (newmax : Nat) :
-    ∃ f0, ∀ fuel, fuel ≥ f0 → Src.HeaderTable.maxsize_set fuel (absT t) (newmax : Int) = tableRes (t.setMaxsize newmax) :=
+    ∃ f0, ∀ fuel, fuel ≥ f0 → dropS (Src.HeaderTable.maxsize_set fuel (absT t) (newmax : Int)) = tableRes (t.setMaxsize newmax) :=
   ⟨t.entries.length + 1, fun fuel hf => maxsize_set_tie t newmax fuel (by omega)⟩
 
 /-- a fresh object is the model's fresh table -/
@@ -50,7 +53,7 @@ example :
         let (t, _) ← Src.HeaderTable.add 9 t [98] [50]
         let (t, _) ← Src.HeaderTable.add 9 t [99] [51]
         let (_, e) ← Src.HeaderTable.get_by_index 9 t 63
-        pure (t.f_dynamic_entries, t.f_current_size, e) : Py.R _) =
+        pure (t.f_dynamic_entries, t.f_current_size, e) : Py.RS Src.HeaderTable _) =
       .ok ([([99], [51]), ([98], [50])], 68, ([98], [50])) := by rfl
 
 end Props.SrcTable
